@@ -1377,6 +1377,11 @@ class BodyError(Exception):
     pass
 
 
+class BodyInterrupt(KeyboardInterrupt):
+    """the body is aborted by something that is not an `Exception` (an interrupt, SystemExit): a failed sync all the same, and the code's bare
+    `except:` rolls back for it as for a DocumentSyncConflict"""
+
+
 class BackupCtx(Ctx):
     def __init__(self, contract, case):
         super().__init__(contract, case)
@@ -1412,7 +1417,7 @@ class CreateBackup(Contract):
     callees = {"signac._utility._safe_relpath": stub_safe_relpath}
 
     def cases(self):
-        return [{"dry_run": d, "body": b, "stale": st} for d in (False, True) for b in ("ok", "raises") for st in (False, True) if not (st and b == "raises")]
+        return [{"dry_run": d, "body": b, "stale": st} for d in (False, True) for b in ("ok", "raises", "interrupted") for st in (False, True) if not (st and b != "ok")]
 
     def setup(self, interp, case):
         g = interp.ctx.ghost
@@ -1440,6 +1445,8 @@ class CreateBackup(Contract):
                 g["files"][interp.ctx.key(g["p"])] = z3.Const("content_written_by_body", Content)
             if case["body"] == "raises":
                 raise RaiseSignal(BodyError("doc sync failed"))
+            if case["body"] == "interrupted":
+                raise RaiseSignal(BodyInterrupt())
         return hook
 
     def post(self, interp, case, pre, outcome):
@@ -1457,8 +1464,8 @@ class CreateBackup(Contract):
             ex.oblige(self.oname("frame:dry_run_touches_no_file"), cur == g["orig"])
         elif "backup_at_yield" in g:
             ex.oblige(self.oname("ensures:backup_holds_the_original_while_the_body_runs"), g["backup_at_yield"] == g["orig"])
-        if case["body"] == "raises":
-            ex.oblige(self.oname("raises:body_exception_propagates"), z3.BoolVal(outcome[0] == "raise" and isinstance(outcome[1], BodyError)))
+        if case["body"] != "ok":
+            ex.oblige(self.oname("raises:body_exception_propagates"), z3.BoolVal(outcome[0] == "raise" and isinstance(outcome[1], (BodyError, BodyInterrupt))))
             ex.oblige(self.oname("raises:document_file_restored_to_its_pre_sync_content"), cur == g["orig"])
         else:
             ex.oblige(self.oname("ensures:normal_exit"), z3.BoolVal(outcome[0] == "return"), note=repr(outcome[1]))
@@ -1500,7 +1507,7 @@ class CreateDocBackup(Contract):
     inline = (f"{SY}._DocProxy.__init__", f"{SY}._DocProxy.__len__", f"{SY}._DocProxy.clear")
 
     def cases(self):
-        return [{"dry_run": d, "body": b, "kind": k} for d in (False, True) for b in ("ok", "raises") for k in ("memory", "file", "file-with-stale-backup")]
+        return [{"dry_run": d, "body": b, "kind": k} for d in (False, True) for b in ("ok", "raises", "interrupted") for k in ("memory", "file", "file-with-stale-backup")]
 
     def make_ctx(self, case):
         import copy
@@ -1554,6 +1561,8 @@ class CreateDocBackup(Contract):
                 g["doc"].c = z3.Const("doc_written_by_body", DocC)      # the merge may have changed the document arbitrarily
             if case["body"] == "raises":
                 raise RaiseSignal(BodyError("conflict"))
+            if case["body"] == "interrupted":
+                raise RaiseSignal(BodyInterrupt())
         return hook
 
     def post(self, interp, case, pre, outcome):
@@ -1564,8 +1573,8 @@ class CreateDocBackup(Contract):
         if case["kind"] != "memory":
             cb = g.get("create_backup_called_with")
             ex.oblige(self.oname("ensures:file_backed_documents_are_protected_by_a_file_backup"), z3.BoolVal(isinstance(cb, SPathTok) and cb.what == "docfile"))
-        if case["body"] == "raises":
-            ex.oblige(self.oname("raises:body_exception_propagates"), z3.BoolVal(outcome[0] == "raise" and isinstance(outcome[1], BodyError)), note=repr(outcome[1]))
+        if case["body"] != "ok":
+            ex.oblige(self.oname("raises:body_exception_propagates"), z3.BoolVal(outcome[0] == "raise" and isinstance(outcome[1], (BodyError, BodyInterrupt))), note=repr(outcome[1]))
             if case["kind"] == "memory":
                 ex.oblige(self.oname("raises:in_memory_document_rolled_back_to_its_pre_sync_content"), g["doc"].c == g["orig"])
         else:
